@@ -21,6 +21,13 @@ pub fn calc_table() -> Vec<OpCfg> {
     for n in ["PI", "π", "E", "e", "TAU", "τ"] {
         t.push(k(n));
     }
+    // piecewise expressions (names and roles as in the value operator table)
+    for n in ["if", "else"] {
+        t.push(b(n, 0, false, false));
+    }
+    for n in [">", "<", ">=", "<=", "==", "!="] {
+        t.push(b(n, 1, false, false));
+    }
     t
 }
 
@@ -30,6 +37,19 @@ const NODIFF_UN: &[&str] = &["abs", "floor", "cbrt", "signum", "fract"];
 const NODIFF_BIN: &[&str] = &["min", "max", "atan2"];
 
 fn gen_text(r: &mut Rng, vars: &[&str], depth: usize, nodiff_pct: usize) -> String {
+    if nodiff_pct >= 1000 && depth < 2 && r.chance(1, 3) {
+        // piecewise: (f if (a ⋚ b) else g)
+        let cmp = *r.pick(&[">", "<", ">=", "<=", "==", "!="]);
+        return format!(
+            "(({}) if (({}) {} ({})) else ({}))",
+            gen_text(r, vars, depth + 1, nodiff_pct),
+            gen_text(r, vars, depth + 2, nodiff_pct),
+            cmp,
+            gen_text(r, vars, depth + 2, nodiff_pct),
+            gen_text(r, vars, depth + 1, nodiff_pct)
+        );
+    }
+    let nodiff_pct = nodiff_pct % 1000;
     let n = 1 + r.below(3);
     let mut s = String::new();
     for i in 0..n {
@@ -58,7 +78,7 @@ pub fn gen(r: &mut Rng, _tier: &str, _i: usize, stats: &mut BTreeMap<String, u64
     let t = calc_table();
     let var_sets: &[&[&str]] = &[&["x", "y"], &["y", "z"], &["a"], &["x", "y", "z"], &["x"], &["b", "a"]];
     let npool = 2 + r.below(4);
-    let nodiff_pct = if profile == "diff" { *r.pick(&[0usize, 0, 0, 15]) } else { 10 };
+    let nodiff_pct = if profile == "diff" { *r.pick(&[0usize, 0, 0, 15]) } else if profile == "val" { 1000 } else { 10 };
     let mut pool = vec![];
     for _ in 0..npool {
         let vs = *r.pick(var_sets);
@@ -73,7 +93,7 @@ pub fn gen(r: &mut Rng, _tier: &str, _i: usize, stats: &mut BTreeMap<String, u64
         let j = r.below(16);
         let kind = match profile {
             "subs" => *r.pick(&["s", "s", "s", "b", "u"]),
-            "diff" => *r.pick(&["p", "p", "p", "b", "s"]),
+            "diff" | "val" => *r.pick(&["p", "p", "p", "b", "s"]),
             _ => *r.pick(&["b", "b", "u", "+", "-", "*", "/", "^", "n", "s", "p"]),
         };
         let step = match kind {
